@@ -250,3 +250,81 @@ theorem key_eq_close (p x : V3 ℝ) (h : key p = key x) :
     linarith [c1.1, c1.2, c2.1, c2.2, c3.1, c3.2, c4.1, c4.2, c5.1, c5.2, c6.1, c6.2]
 
 end Fam
+
+namespace Fam
+
+/-! ### domain tests -/
+
+theorem outside_iff (lo hi x : ℝ) : outside lo hi x = true ↔ ¬ (lo ≤ x ∧ x ≤ hi) := by
+  unfold outside
+  rw [Bool.not_eq_true', Bool.and_eq_false_iff, decide_eq_false_iff_not, decide_eq_false_iff_not]
+  tauto
+
+theorem Table.domain_error_iff (T : Table) (a c : ℝ) :
+    (∃ e, T.domain a c = .error e) ↔
+      ¬ ((T.aLo.toScalar T.den ≤ a ∧ a ≤ T.aHi.toScalar T.den) ∧
+         (T.cLo.toScalar T.den ≤ c ∧ c ≤ T.cHi.toScalar T.den)) := by
+  unfold Table.domain
+  by_cases ha : outside (T.aLo.toScalar T.den : ℝ) (T.aHi.toScalar T.den) a = true
+  · rw [if_pos ha]
+    have := (outside_iff _ _ _).mp ha
+    constructor
+    · intro _ h; exact this h.1
+    · intro _; exact ⟨_, rfl⟩
+  · rw [if_neg ha]
+    have ha' : (T.aLo.toScalar T.den : ℝ) ≤ a ∧ a ≤ T.aHi.toScalar T.den := by
+      by_contra h; exact ha ((outside_iff _ _ _).mpr h)
+    by_cases hc : outside (T.cLo.toScalar T.den : ℝ) (T.cHi.toScalar T.den) c = true
+    · rw [if_pos hc]
+      have := (outside_iff _ _ _).mp hc
+      constructor
+      · intro _ h; exact this h.2
+      · intro _; exact ⟨_, rfl⟩
+    · rw [if_neg hc]
+      have hc' : (T.cLo.toScalar T.den : ℝ) ≤ c ∧ c ≤ T.cHi.toScalar T.den := by
+        by_contra h; exact hc ((outside_iff _ _ _).mpr h)
+      constructor
+      · rintro ⟨e, he⟩; cases he
+      · intro h; exact absurd ⟨ha', hc'⟩ h
+
+/-- the only error `domain` produces is ValueError -/
+theorem Table.domain_error_kind (T : Table) (a c : ℝ) (e : String) (h : T.domain a c = .error e) :
+    e = "ValueError" := by
+  unfold Table.domain at h
+  split_ifs at h <;> cases h <;> rfl
+
+theorem Table.domain_ok (T : Table) (a c : ℝ)
+    (h : (T.aLo.toScalar T.den ≤ a ∧ a ≤ T.aHi.toScalar T.den) ∧
+         (T.cLo.toScalar T.den ≤ c ∧ c ≤ T.cHi.toScalar T.den)) :
+    T.domain a c = .ok (a, T.b.toScalar T.den, c) := by
+  unfold Table.domain
+  have ha : ¬ outside (T.aLo.toScalar T.den : ℝ) (T.aHi.toScalar T.den) a = true := by
+    rw [outside_iff]; exact fun hn => hn h.1
+  have hc : ¬ outside (T.cLo.toScalar T.den : ℝ) (T.cHi.toScalar T.den) c = true := by
+    rw [outside_iff]; exact fun hn => hn h.2
+  rw [if_neg ha, if_neg hc]
+
+/-- `get_shape(a, c)` raises (ValueError) exactly outside the rectangle; inside it hands
+    `make_vertices(a, b, c)` to `ConvexPolyhedron` -/
+theorem Table.getShape_spec (T : Table) (a c : ℝ) :
+    (T.getShape a c = .error "ValueError" ↔
+      ¬ ((T.aLo.toScalar T.den ≤ a ∧ a ≤ T.aHi.toScalar T.den) ∧
+         (T.cLo.toScalar T.den ≤ c ∧ c ≤ T.cHi.toScalar T.den))) ∧
+    (((T.aLo.toScalar T.den ≤ a ∧ a ≤ T.aHi.toScalar T.den) ∧
+         (T.cLo.toScalar T.den ≤ c ∧ c ≤ T.cHi.toScalar T.den)) →
+      T.getShape a c = .ok (makeVertices T.planesS T.types a (T.b.toScalar T.den) c)) := by
+  constructor
+  · rw [← Table.domain_error_iff]
+    unfold Table.getShape
+    constructor
+    · intro h
+      cases hd : T.domain a c with
+      | error e => exact ⟨e, rfl⟩
+      | ok d => rw [hd] at h; cases h
+    · rintro ⟨e, he⟩
+      rw [he, Table.domain_error_kind T a c e he]
+  · intro h
+    unfold Table.getShape
+    rw [Table.domain_ok T a c h]
+
+end Fam
